@@ -9,6 +9,7 @@
 //!   if  bits                    INFO Float Number=1     (u32 bit pattern, decimal)
 //!   ifv b,.,b                   INFO Float Number=.
 //!   is  hex                     INFO String Number=1    (descriptor / overflow length)
+//!   im  Integer|Float|String    INFO field of that type whose value is missing (`X=.`)
 //!   fi  a;.;b                   FORMAT Integer Number=1, one entry per sample
 //!   fv  a,b;.;c,.               FORMAT Integer Number=., one vector per sample (`.` = missing
 //!                               sample, `e` = empty vector)
@@ -556,8 +557,20 @@ fn outside_domain(r: &Rec) -> Option<&'static str> {
     None
 }
 
-/// the known-defect class an input belongs to (priority order), if any
-fn known_class(h: &Hdr, r: &Rec) -> Option<&'static str> {
+/// The one input class for which the tree is still known to violate the property (a proposed
+/// known finding): String/Character values that VCF text would percent-encode.
+fn known_class(_h: &Hdr, r: &Rec) -> Option<&'static str> {
+    if r.info.iter().any(|(_, v)| has_special_string(v))
+        || r.samples.iter().flatten().any(has_special_string)
+    {
+        return Some("string-special-chars");
+    }
+    None
+}
+
+/// Diagnostic only (appended to the detail of a failure, never used as its tag): the first of the
+/// input features that used to break the round trip before the fix: commits 01..08.
+fn input_feature(h: &Hdr, r: &Rec) -> Option<&'static str> {
     // the BCF header writer drops IDX=: the reader numbers the dictionary by order of appearance
     if idx_differs_from_order(h) {
         return Some("header-idx-not-written");
@@ -627,7 +640,13 @@ fn known_class(h: &Hdr, r: &Rec) -> Option<&'static str> {
 /// The property evaluated on one header + record.
 fn check_record(h: &Hdr, r: &Rec) -> (Result<(), (String, String)>, bool) {
     match outside_domain(r) {
-        None => check_record_in(h, r, known_class(h, r)),
+        None => match check_record_in(h, r, known_class(h, r)) {
+            (Err((t, d)), nt) => {
+                let f = input_feature(h, r).unwrap_or("none");
+                (Err((t, format!("{d} [input feature: {f}]"))), nt)
+            }
+            x => x,
+        },
         Some(c) => match check_record_in(h, r, Some("outside")) {
             // outside the domain only a panic counts
             (Err((_, d)), _) if d.starts_with("Panic") => {
@@ -774,6 +793,10 @@ fn micro(c: &Case) -> Option<(Hdr, Rec)> {
         "ifv" => {
             r.info = vec![("X".into(), Some(V::AF(parse_opt_u32s(a(0)))))];
             micro_header(true, "X", ".", "Float", 0)
+        }
+        "im" => {
+            r.info = vec![("X".into(), None)];
+            micro_header(true, "X", "1", a(0), 0)
         }
         "is" => {
             r.info = vec![("X".into(), Some(V::S(String::from_utf8(unhex(a(0))).unwrap())))];
@@ -1077,6 +1100,9 @@ fn generate(rng: &mut Rng, tier: &str, w: &mut CaseWriter) {
         w.push("is", vec![hex(s.as_bytes())]);
     }
     w.push("is", vec![hex(b".")]);
+    for t in ["Integer", "Float", "String"] {
+        w.push("im", vec![t.to_string()]);
+    }
 
     // --- FORMAT Integer scalars per sample
     for _ in 0..200 * mul {
